@@ -38,7 +38,10 @@ RULE_ADDED = (
               ' '
               'Round 12: the manager in its own process (entry point, main thread) with a devic'
               'e whose answers take 0.15 s, SIGTERM during a multi-exchange query: gone, or sti'
-              "ll answering with the device's data. ")
+              "ll answering with the device's data. "
+              ' '
+              'Round 13: uiHeartbeat requests in a row with related values (next of a counter, '
+              'same, one byte changed, upper case). ')
 RULE = RULE + " " + RULE_ADDED.strip()
 ASSUMPTIONS = [
     "simulated device + fake HID/TCP transports are trusted; firmware selectors are parsed "
@@ -358,6 +361,40 @@ def run_state(acc, cseed, platform, fw, nets, cmpf, Stack, SimDevice):
                 acc.violation("heartbeat-ud-value-not-relayed", {"got": dev.uihb.get("ud")}, case)
             if trans in ("stuck_signer", "to_bootloader", "hb_error"):
                 acc.violation("uiHeartbeat-ok-without-heartbeat-mode", {"trans": trans}, case)
+            elif dev.mode == MODE_SIGNER:
+                # ---- and again, right away, with a value that is the next of a series (a
+                # counter or a timestamp in the last bytes, as docs/heartbeat.md suggests;
+                # or the same value): each heartbeat is the device's answer to its own value
+                for k_ in range(rng.randint(1, 3)):
+                    how = rng.choice(["next-counter", "next-counter", "next-counter", "same", "first-byte",
+                                      "last-byte", "case"])
+                    n_ = int.from_bytes(ud, "big")
+                    ud2 = {"next-counter": ((n_ + rng.choice([1, 60, 256])) % 2**256
+                                            ).to_bytes(32, "big"),
+                           "same": ud, "case": ud,
+                           "first-byte": bytes([ud[0] ^ 1]) + ud[1:],
+                           "last-byte": ud[:-1] + bytes([ud[-1] ^ 0x80])}[how]
+                    sig2, rs2 = der.make_sig(rng, "normal")
+                    dev.uihb.update(signature=sig2, rs=rs2,
+                                    message=art(rng, rng.choice([78, 83, rng.randint(1, 200)])))
+                    dev.uihb.pop("ud", None)
+                    text = ud2.hex().upper() if how == "case" else ud2.hex()
+                    reply, exc, _ = s.request({"command": "uiHeartbeat", "version": 5,
+                                               "udValue": text})
+                    acc.evaluations += 1
+                    acc.count("uihb_repeated_with_a_related_value")
+                    if exc is not None or not reply or reply.get("errorcode") not in (0, -905):
+                        acc.violation("uiHeartbeat-no-verdict", {"exc": repr(exc), "reply": reply,
+                                                                 "second": how}, case)
+                        return
+                    if reply["errorcode"] != 0:
+                        break
+                    check_hb(cmpf, "uiHeartbeat", reply, dev.uihb, case)
+                    if dev.uihb.get("ud") != ud2:
+                        acc.violation("heartbeat-ud-value-not-relayed",
+                                      {"got": repr(dev.uihb.get("ud")), "second": how}, case)
+                        return
+                    ud = ud2
         elif code != -905:
             acc.violation("uiHeartbeat-error-not-905", {"reply": reply}, case)
         elif trans == "normal" and exitb != "timeout" and not reconn:
